@@ -729,10 +729,10 @@ fn egress_case(b2b: bool, idx: u64, rng: &mut Rng, ctx: &Ctx) -> CaseOut {
     out
 }
 
-fn egress_single(i: u64, r: &mut Rng, c: &Ctx) -> CaseOut {
+pub fn egress_single(i: u64, r: &mut Rng, c: &Ctx) -> CaseOut {
     egress_case(false, i, r, c)
 }
-fn egress_b2b(i: u64, r: &mut Rng, c: &Ctx) -> CaseOut {
+pub fn egress_b2b(i: u64, r: &mut Rng, c: &Ctx) -> CaseOut {
     egress_case(true, i, r, c)
 }
 
